@@ -124,6 +124,10 @@ func C25(e *simkern.Env) {
 	if e.Tier == "thorough" {
 		ops = 6 + tp.Draw(14)
 	}
+	recycle := tp.Bool(1, 4)
+	if recycle && !disableCache && tp.Bool(2, 3) {
+		capKnob = 2 + tp.Draw(2) // a small cache, so that it fills while the recycled nonce is live
+	}
 	e.Knob("skew_s", skew)
 	e.Knob("capacity", capKnob)
 	e.Knob("replay_cache", !disableCache)
@@ -435,7 +439,16 @@ func C25(e *simkern.Env) {
 		var accepted []*c25Proof // proofs that passed a gate at least once
 		var hot *c25Proof        // most recently minted
 		nonceN := 0
+		// one run in four: proxies that recycle nonces from a small ring (a
+		// counter that wraps, a restart that re-seeds) and pause for longer than
+		// a cache entry lives, so that the same nonce is admitted again, under a
+		// new timestamp, after its first entry has expired
+		e.Knob("nonce_recycling", recycle)
 		nonce := func() string {
+			if recycle && tp.Bool(1, 2) {
+				sim.Fault("nonce-recycled")
+				return fmt.Sprintf("n%021d", 900000+tp.Draw(2))
+			}
 			nonceN++
 			return fmt.Sprintf("n%021d", nonceN)
 		}
@@ -448,7 +461,11 @@ func C25(e *simkern.Env) {
 			kid := kids[pi%len(kids)]
 			return func() {
 				for op := 0; op < ops && !e.Violated(); op++ {
-					clk.WaitFor(name, []time.Duration{0, 0, 200 * time.Millisecond, time.Second, S}[tp.Draw(5)])
+					if recycle && tp.Bool(1, 3) {
+						clk.WaitFor(name, 2*S+time.Duration(2+tp.Draw(3))*time.Second)
+					} else {
+						clk.WaitFor(name, []time.Duration{0, 0, 200 * time.Millisecond, time.Second, S}[tp.Draw(5)])
+					}
 					g := gates[tp.Draw(len(gates))]
 					ts := workerNow().Unix() + int64(offsets[tp.Draw(len(offsets))])
 					var s string
@@ -496,7 +513,12 @@ func C25(e *simkern.Env) {
 			evil := mkSecret("attacker")
 			return func() {
 				for op := 0; op < ops && !e.Violated(); op++ {
-					clk.WaitFor(name, waits[tp.Draw(len(waits))])
+					if recycle && tp.Bool(2, 3) {
+						// a network that duplicates recent requests shortly after
+						clk.WaitFor(name, []time.Duration{0, 200 * time.Millisecond, time.Second}[tp.Draw(3)])
+					} else {
+						clk.WaitFor(name, waits[tp.Draw(len(waits))])
+					}
 					// choose a victim proof
 					var v *c25Proof
 					switch {
@@ -518,7 +540,11 @@ func C25(e *simkern.Env) {
 					}
 					g := gates[v.gate]
 					parts := strings.Split(v.s, ".")
-					kind := tp.Weighted([]int{14, 3, 3, 2, 2, 2, 2, 2, 3, 2, 2, 2, 2, 2, 1})
+					kindW := []int{14, 3, 3, 2, 2, 2, 2, 2, 3, 2, 2, 2, 2, 2, 1}
+					if recycle {
+						kindW[0] = 40
+					}
+					kind := tp.Weighted(kindW)
 					switch kind {
 					case 0:
 						p := present(name, "replay", g, []string{v.s})
@@ -668,11 +694,11 @@ func init() {
 	Registry["C25"] = &Info{
 		Run:   C25,
 		Level: "exploration",
-		Rule: "each run draws skew (2-30 s), replay capacity {default,1,2,3,5}, cache on/off, 1-2 workers (distinct origins, shared or separate secrets, two key ids), the ProofConfig.Now seam (nil or an offset clock), 1-2 proxy tasks and 1-3 attacker tasks; proxies mint proofs with the repository's MintProof (and a few sloppy variants from the documented format) stamped up to skew+2 s either side of the worker clock and present them; attackers wait tape-chosen simulated delays (0 … 2×skew+1 s) and then replay accepted or in-flight proofs, re-spell their MAC, mutate each field, present them to the other worker, send two headers / comma-joined / empty / oversized headers, forge with a foreign key, or mint far-off timestamps; the scheduler interleaves presentations inside the nonce cache and moves the clock between and during them; distinct = distinct schedule fingerprint; non-trivial = the clock moved and (a proof that had already been accepted was accepted again and judged, or two tasks were runnable at once)",
+		Rule: "each run draws skew (2-30 s), replay capacity {default,1,2,3,5}, cache on/off, 1-2 workers (distinct origins, shared or separate secrets, two key ids), the ProofConfig.Now seam (nil or an offset clock), 1-2 proxy tasks and 1-3 attacker tasks; proxies mint proofs with the repository's MintProof (and a few sloppy variants from the documented format) stamped up to skew+2 s either side of the worker clock and present them (one run in four: proxies recycle nonces from a ring of two and pause longer than a cache entry lives, so a nonce is admitted again under a new timestamp after its first entry expired); attackers wait tape-chosen simulated delays (0 … 2×skew+1 s) and then replay accepted or in-flight proofs, re-spell their MAC, mutate each field, present them to the other worker, send two headers / comma-joined / empty / oversized headers, forge with a foreign key, or mint far-off timestamps; the scheduler interleaves presentations inside the nonce cache and moves the clock between and during them; distinct = distinct schedule fingerprint; non-trivial = the clock moved and (a proof that had already been accepted was accepted again and judged, or two tasks were runnable at once)",
 		Real:  []string{"vgirpc.ProofAuthenticate gate (require mode), VerifyProof, nonceCache", "vgirpc.MintProof", "testing/synctest clock (time.Now and ProofConfig.Now)"},
 		Stub:  []string{"proxies and attackers (tasks)", "inner authenticator (counting, yields, fault plan)", "independent HMAC verifier from the documented proof format", "http.Request construction (httptest)"},
 		Quick: 3200, Thorough: 240000,
-		FaultKinds: []string{"clock-advance", "inner-reject"},
+		FaultKinds: []string{"clock-advance", "inner-reject", "nonce-recycled"},
 		Assumptions: []string{
 			"the worker clock is monotone (the simulated clock, optionally shifted by a constant through ProofConfig.Now); proxies' clocks are skewed, the worker's never steps backwards",
 			"timestamps are whole seconds: an accepted proof is flagged as outside the window only when it was at least skew+1 s away from the worker clock during the whole presentation",
